@@ -24,12 +24,16 @@ TRUSTED = ["Lean 4.33 kernel", "axioms propext/Classical.choice/Quot.sound only"
 ASSUMPTIONS = ["'promptly' is proved as a step bound (main observes the exit at its next poll); wall-clock bounds are measured on "
                "real children with margins and are not theorems",
                "what SIGKILL reaches (grandchildren holding the pipes) is a runtime matter: modelled by the holdOpen flag, measured on real runs"]
-LEVEL_TEXT = ("Lean 4 proofs over EVERY schedule: timed_out_means_killed, kills_at_most_once, no_timeout_no_kill, cancelled_never_kills, "
-              "timeout_kills_and_raises_partial, timely_command_normal_partial, expiry_kills; the full statements are false of the code "
-              "(timer-liveness races, known finding #26) and are witnessed by three counterexample theorems; the transition system is tied "
-              "to Runner.start_timer/timed_out/stop/kill/_finish by gate-scheduled runs of the real threads, with an oracle on the order "
-              "of expiry / exit / decision events and real children for wall-clock promptness")
-TECHNIQUE = "Lean 4 invariant proofs over all schedules + counterexample theorems + gated-thread model/implementation correspondence"
+LEVEL_TEXT = ("Lean 4 proofs over EVERY schedule of the repaired runner: timeout_kills_and_raises (a kill issued before the wait loop saw "
+              "the command end => timed-out failure whatever warn, exactly one kill, command ended), timely_command_normal (seen ended "
+              "before any kill => never killed, never timed out, own exit status, ordinary outcome), timed_out_means_killed, "
+              "kills_at_most_once, kills_eq_issued, no_timeout_no_kill, cancelled_never_kills, expiry_kills, late_expiry_kills_nothing; the "
+              "three race schedules of the former finding #26 are replayed by decide (race_*_repaired); the residual window (command ended "
+              "but not yet polled when the timer fires) is witnessed by exit_unseen_at_expiry_counterexample and recorded as a known "
+              "finding; the transition system is tied to Runner.start_timer/timed_out/stop/_finish/wait/_disarm_timer_if_timely and "
+              "Local.kill by gate-scheduled runs of the real threads, with an oracle on the order of exit / kill / observation events and "
+              "real children for wall-clock promptness")
+TECHNIQUE = "Lean 4 invariant proofs over all schedules + gated-thread model/implementation correspondence"
 
 
 def idx(trace, name, start=0):
@@ -40,69 +44,67 @@ def idx(trace, name, start=0):
 
 
 def analyse(c, o):
-    """order of the timeout-relevant events in the implementation's gate trace"""
+    """order of the timeout-relevant events in the implementation's gate trace.
+    elapse  = the Timer thread's kill() step (the moment the timeout takes effect);
+    exit    = the command ending by itself;
+    seen    = the wait-loop step that follows a poll made after the command had ended (the runner knows)"""
     tr = o["trace"]
-    a = {"expire": idx(tr, "timer:expire"), "kill": idx(tr, "timer:kill"), "finish": idx(tr, "timer:finish"),
-         "check": idx(tr, "main:timed_out?"), "cancel": idx(tr, "main:cancel")}
+    a = {"elapse": idx(tr, "timer:kill"), "expire": idx(tr, "timer:expire"), "finish": idx(tr, "timer:finish"),
+         "cancel": idx(tr, "main:cancel"), "returned": idx(tr, "main:returned")}
     a["exit"] = next((i for i, t in enumerate(tr) if t.startswith("env:x")), None)
-    a["returned"] = idx(tr, "main:returned")
-    # an expiry only counts while the timeout is in effect, i.e. before stop() cancelled the timer
-    if a["expire"] is not None and a["cancel"] is not None and a["cancel"] < a["expire"]:
-        a["expire"] = None
+    a["seen"] = None
+    if a["exit"] is not None:
+        p = idx(tr, "main:poll", a["exit"])
+        if p is not None:
+            a["seen"] = idx(tr, "main:polldead", p)
     return a
-
-
-def race_tag(a, kind):
-    """signature of the Timer-thread-liveness race (#26) in the gate trace, or ''"""
-    if kind == "not-raised":
-        # main tested timed_out after the expiry but before the Timer thread had finished
-        if a["check"] is not None and a["expire"] is not None and a["expire"] < a["check"] and (a["finish"] is None or a["check"] < a["finish"]):
-            return " {race: timed_out tested while the Timer thread was still running}"
-    else:
-        # the timer expired after the command had finished, before stop() cancelled it and before run() returned
-        if (a["expire"] is not None and a["exit"] is not None and a["exit"] < a["expire"]
-                and (a["cancel"] is None or a["expire"] < a["cancel"]) and (a["returned"] is None or a["expire"] < a["returned"])):
-            return " {race: timer expired after the command finished but before stop()}"
-    return ""
 
 
 def oracle_gated(c, o, io_):
     if not c["has_t"] or c["start_fails"] or not o["main_done"]:
         if not c["has_t"] and (o["kills"] or io_["outcome"].startswith("raise:CommandTimedOut")):
             return "[no-timeout] no timeout in effect but kills=%d outcome=%s" % (o["kills"], io_["outcome"])
+        if c["has_t"] and not c["start_fails"] and o["kills"] > 1:
+            return "[killed-twice] kill() took effect %d times" % o["kills"]
         return None
+    if o["kills"] > 1:
+        return "[killed-twice] kill() took effect %d times" % o["kills"]
     if io_["outcome"] == "raise:ThreadException":
         return None  # a worker died: the property's timeout clauses do not apply
     a = analyse(c, o)
-    still_running_at_expiry = a["expire"] is not None and (a["exit"] is None or a["expire"] < a["exit"])
-    finished_first = a["exit"] is not None and (a["expire"] is None or a["exit"] < a["expire"])
-    if still_running_at_expiry:
+    still_running_at_elapse = a["elapse"] is not None and (a["exit"] is None or a["elapse"] < a["exit"])
+    finished_first = a["exit"] is not None and (a["elapse"] is None or a["exit"] < a["elapse"])
+    if still_running_at_elapse:
         if not io_["outcome"].startswith("raise:CommandTimedOut"):
-            return "[timeout-not-raised] the timeout elapsed while the command was running but the outcome is %s%s" % (
-                io_["outcome"], race_tag(a, "not-raised"))
+            return "[timeout-not-raised] the timeout elapsed while the command was running but the outcome is %s" % io_["outcome"]
         if o["kills"] < 1:
             return "[timeout-not-killed] timed out but never killed"
         r = o["result"]
         if r[0] == "raise" and (r[2], r[3]) != o["cap"]:
             return "[timeout-output] the timed-out failure does not carry the output captured so far"
     if finished_first:
+        # residual window (known finding): the command ended, but the wait loop had not polled again when the timer fired
+        unseen = a["elapse"] is not None and (a["seen"] is None or a["elapse"] < a["seen"])
+        tag = " {exit not yet seen by the wait loop when the timer fired}" if unseen else ""
         if io_["outcome"].startswith("raise:CommandTimedOut"):
-            return "[timely-but-timedout] the command finished before the timeout elapsed but a timed-out failure was raised" + race_tag(a, "timely")
+            return "[timely-but-timedout] the command finished before the timeout elapsed but a timed-out failure was raised" + tag
         if o["kills"]:
             return "[killed-after-finish] the command finished before the timeout elapsed but kill() was issued afterwards (%d after run returned)%s" % (
-                o["kills_after_return"], race_tag(a, "timely"))
-    if a["expire"] is None and a["exit"] is None and io_["outcome"].startswith("raise:CommandTimedOut"):
-        return "[timedout-without-expiry] timed out although the timer never expired"
+                o["kills_after_return"], tag)
+    if a["elapse"] is None and io_["outcome"].startswith("raise:CommandTimedOut"):
+        return "[timedout-without-expiry] timed out although the timer's kill never ran"
+    if a["elapse"] is None and o["kills"]:
+        return "[killed-without-expiry] killed although the timer's kill never ran"
     return None
 
 
 def match_known(entry, failure):
-    """#26: failures carrying the race signature computed from the gate trace, and only those"""
     why = failure["why"]
     if entry.get("id") == "C14-grandchild-holds-pipes":
         return why.startswith("[grandchild]")
-    if entry.get("id") == "C14-timer-liveness-race":
-        return "{race:" in why and why.startswith(("[timeout-not-raised]", "[timely-but-timedout]", "[killed-after-finish]"))
+    if entry.get("id") == "C14-exit-unseen-at-expiry":
+        return "{exit not yet seen by the wait loop when the timer fired}" in why and \
+            why.startswith(("[timely-but-timedout]", "[killed-after-finish]"))
     return False
 
 
@@ -299,13 +301,14 @@ def run(ctx):
     out = Outcome()
     rng = ctx.rng
     gcases = [runnerio.gen_case(rng, rng.choice(["timer", "timer", "timer", None])) for _ in range(ctx.n(2500, 25000))]
-    # the three witness schedules of the counterexample theorems first
+    # the three race schedules of the repaired finding #26 (Props/C14.lean race_*_repaired) and the residual one first
     base = {"has_in": False, "has_t": True, "pty": False, "echo_opt": 0, "in_tty": False, "hold": False, "start_fails": False,
             "read_size": 1000, "out": [], "err": [], "ins": None, "hide": True, "explicit": True}
     w1 = dict(base, warn=True, sched="timer,timer,main,main,main,out,main,err,main,main,main".split(","))
-    w2 = dict(base, warn=False, sched="x0,main,main,main,timer,timer,timer,out,main,err,main,main,main".split(","))
-    w3 = dict(base, warn=False, sched="x0,main,main,main,out,main,err,main,main,timer,main,timer".split(","))
-    runnerio.run_cases(ctx, out, [w1, w2, w3] + gcases, oracle=oracle_gated)
+    w2 = dict(base, warn=False, sched="x0,main,main,timer,timer,timer,main,main,main,out,main,err,main,main,main".split(","))
+    w3 = dict(base, warn=False, sched="x0,main,main,main,main,main,out,main,err,main,main,timer,main,timer,timer".split(","))
+    w4 = dict(base, warn=False, sched="x0,timer,timer,timer,main,main,main,out,main,err,main,main,main".split(","))
+    runnerio.run_cases(ctx, out, [w1, w2, w3, w4] + gcases, oracle=oracle_gated)
     extra = [{"src": "kwarg"}, {"src": "config"}, {"src": "none"}, {"src": "cli", "argv": ["-T", "5"]},
              {"src": "cli", "argv": ["--command-timeout=5"]}, {"src": "cli", "argv": ["-T5"]},
              {"src": "file"}, {"src": "envvar"}, {"src": "file", "argv": ["-T", "5"]}, {"src": "envvar", "argv": ["-T5"]},
